@@ -100,6 +100,21 @@ fn main() {
                     Err(e) => format!("Err({})", c_err(&e)),
                 })
             }
+            "fm" => {
+                let src = src_of(line.trim());
+                guarded(|| match kiki::verif_hooks::first_sets(&src) {
+                    Ok(fm) => format!(
+                        "Ok({})",
+                        cl(fm.iter().map(|(n, ts, e)| format!(
+                            "F({},{},{})",
+                            cs(n),
+                            cl(ts.iter().map(|t| cs(t))),
+                            if *e { 1 } else { 0 }
+                        )))
+                    ),
+                    Err(e) => format!("Err({})", c_err(&e)),
+                })
+            }
             "oset" => guarded(|| oset::run_line(&line)),
             _ => panic!("unknown command"),
         };
